@@ -50,7 +50,7 @@ ASSUMPTIONS = [
     "angles are undefined (not checked) when one of the rays has zero length; contraction is "
     "undefined for a zero-length branch",
 ]
-REQUIRED = ["trees", "length_checked", "branch_features_checked", "path_features_checked",
+REQUIRED = ["trees_measured_from_inside_a_traversal", "trees", "length_checked", "branch_features_checked", "path_features_checked",
             "node_features_checked", "counts_checked", "branch_order_checked", "sholl_intersect_checked",
             "sholl_get_checked", "sholl_exact_threshold_radii", "lmeasure_tree_checked",
             "lmeasure_node_checked", "lmeasure_bif_checked", "lmeasure_branch_checked",
@@ -345,6 +345,16 @@ def exec_tree(ctx, case):
         ctx.count("root_is_tip_or_one_child")
     soma_ok = int(spec["type"][0]) == 1
     try:
+        if case["seed"] % 6 == 1 and n <= 120:
+            # the same measurements taken by user code that runs inside a traversal of another
+            # tree (statistics per visited node): same numbers, and the walk in progress goes on
+            _, _, prob = G.inside_traversal(lambda: check_tree(ctx, case, tree, spec, ref, soma_ok),
+                                            host=G.host_tree(case["seed"] % 11, 6 + case["seed"] % 8))
+            ctx.count("trees_measured_from_inside_a_traversal")
+            if prob:
+                raise Mismatch("measured-inside-a-traversal",
+                               f"morphometrics asked for from the callbacks of a traversal of "
+                               f"another tree: {prob}")
         check_tree(ctx, case, tree, spec, ref, soma_ok)
     except Mismatch as m:
         ctx.violation(m.mech, m.detail + f" | n={n}, shape={case['tree']['shape']}, geom="
